@@ -40,7 +40,17 @@ def run(ctx, res):
         # comparator: cmp(key(r), key(l))
         cmpc = t["args"][1] if len(t["args"]) > 1 else None
         ct = tb.operand(cmpc) if cmpc else None
-        if ct and ct[0] == "closure":
+        by_key = m in ("sort_by_key", "sort_by_cached_key")
+        if ct and ct[0] == "closure" and by_key:
+            # sort_by_key(|t| Reverse(key(t))): descending iff the key is wrapped in cmp::Reverse
+            g = F.fn(ct[1])
+            rets = [e[1] for p in Sim(g, F).run() for e in p.events if e[0] == "return"]
+            if rets and all(isinstance(r, tuple) and r[0] == "agg" and r[1].endswith("Reverse::Reverse") for r in rets):
+                res.ok(rid1, "descending", g.loc(), "sort_by_key(Reverse(key))")
+            elif rets:
+                res.violation(rid1, "descending", "terminals are sorted by an ascending key (%s): they are not tried in descending "
+                              "priority order" % fmt(rets[0])[:80], g.loc())
+        elif ct and ct[0] == "closure":
             g = F.fn(ct[1])
             for p in Sim(g, F).run():
                 r = [e[1] for e in p.events if e[0] == "return"]
@@ -88,27 +98,46 @@ def run(ctx, res):
         res.anchor_lost(rid1, "priority key closure not found", f.loc())
     else:
         rows = set()
-        for p in Sim(keycl, F).run():
-            ms = [v for t, v in p.cond if t[0] == "field" and t[2] == "lexical_disamb_most_specific"]
+        # the closure is read in the vocabulary of sort_terminals (a captured `most_specific` local is the setting it copies)
+        from . import census
+        cc = census.closure_context(F, keycl)
+        for p in Sim(keycl, F, upvars=cc[2] if cc else None).run():
+            ms = [v for t, v in p.cond if mir.contains(t, lambda x: isinstance(x, tuple) and x[0] == "field" and x[2] == "lexical_disamb_most_specific")
+                  and t[0] in ("field", "var", "upvar", "param")]
             rk = [rt.val(v) for t, v in p.cond if t[0] == "discr" and isinstance(t[1], tuple) and t[1][0] == "vfield" and has_field(t[1], "recognizer")]
             rs = [rt.val(v) for t, v in p.cond if t[0] == "discr" and isinstance(t[1], tuple) and t[1][0] == "field" and t[1][2] == "recognizer"]
             r = [e[1] for e in p.events if e[0] == "return"]
             if not r:
                 continue
             k = r[0]
+            if isinstance(k, tuple) and k[0] == "agg" and k[1].endswith("Reverse::Reverse"):
+                k = dict(k[2]).get("0", k)
             shape = None
             if k[0] == "bin" and k[1] == "Add" and k[2][0] == "bin" and k[2][1] == "Mul" and has_field(k[2][2], "prio", "Terminal") \
                     and k[2][3][0] == "const" and isinstance(k[2][3][1], int) and k[2][3][1] >= 1000:
                 extra = k[3]
-                shape = "len" if has_call(extra, "len") else ("0" if extra == ("const", 0) or (extra[0] == "cast" and extra[1] == ("const", 0)) else fmt(extra)[:40])
+                while isinstance(extra, tuple) and extra[0] == "cast":
+                    extra = extra[1]
+                shape = "len" if has_call(extra, "len") else ("0" if extra == ("const", 0) else "?" + fmt(extra)[:40])
             else:
                 shape = "?" + fmt(k)[:60]
             rows.add((ms[0] if ms else None, rs[0] if rs else None, rk[0] if rk else None, shape))
-        exp = {(0, None, None, "0"), (1, "None", None, "0"), (1, "Some", "RegexTerm", "0"), (1, "Some", "StrConst", "len")}
-        if rows == exp:
+        # every situation (most_specific, recogniser present, its kind) must be answered by the documented key
+        bad, unknown = [], not rows or any(r[3].startswith("?") for r in rows)
+        for msv in (0, 1):
+            for rsv, rkv in (("None", None), ("Some", "RegexTerm"), ("Some", "StrConst")):
+                got = {r[3] for r in rows if r[0] in (None, msv) and r[1] in (None, rsv) and (r[2] in (None, rkv) or rsv == "None")}
+                want = "len" if (msv == 1 and rkv == "StrConst") else "0"
+                if not got:
+                    unknown = True
+                elif got != {want}:
+                    bad.append(((msv, rsv, rkv), sorted(got), want))
+        if unknown:
+            res.anchor_lost(rid1, "sort key not recognised as prio*1000 + extra (%s)" % sorted(rows, key=str)[:3], keycl.loc())
+        elif not bad:
             res.ok(rid1, "key-table", keycl.loc(), "prio*1000 + (most_specific && StrConst ? len : 0)")
         else:
-            res.violation(rid1, "key-table", "sort key table is %s, documented %s" % (sorted(rows, key=str), sorted(exp, key=str)), keycl.loc())
+            res.violation(rid1, "key-table", "sort key: for (most_specific, recogniser, kind) = %s the extra term is %s, documented %s" % bad[0], keycl.loc())
     # R2 finish flags
     rid2 = res.rule("C06-R2", "finish flags: own flag = most_specific && string recogniser; the previous terminal's flag is raised when "
                     "the priority changes", floor=2)
